@@ -58,6 +58,8 @@ def to_events(name, trace):
     entered = True
     wait_seen = False
     notify_seen = False
+    cas_pending = set()          # words whose registration pre-check saw Empty and whose CAS has not been traced yet
+    weak_rereads = [0]
     ev_addr = {}                 # role -> u-name of the stack event's counter / mutex / condvar
     got_event_before_ret = set() # producers whose exchange returned the waiter's event
     xchg_done = set()
@@ -164,12 +166,27 @@ def to_events(name, trace):
                 raise Vocabulary("waiter operation outside the call: " + tok)
             ops_w += 1
             if kind == "w":
-                if op == "load":
+                if op == "load" and idx in cas_pending and is_shared(form, n, idx):
+                    # SetCallbackImpl<true> is a compare_exchange_weak LOOP: an injected spurious failure (--weak) is not
+                    # an operation of its own, the fiber wrapper re-reads the word into `expected` and the loop goes round.
+                    # Re-read Result = the failed CAS that observed it (the model's ECasW false requires word <> Empty);
+                    # re-read Empty = the loop retries from the same program point (a stutter, nothing emitted).  Unique
+                    # words have no loop in the pinned code: a re-read there stays an ELdW and the model rejects it.
+                    if val == "R":
+                        evs.append("ECasW %d false" % idx)
+                        cas_pending.discard(idx)
+                    elif val != "E":
+                        raise Vocabulary("re-read of a shared word after a spurious failure saw neither Empty nor Result: " + tok)
+                    weak_rereads[0] += 1
+                elif op == "load":
                     evs.append("ELdW %d %s" % (idx, WORD[val]))
+                    if val == "E":
+                        cas_pending.add(idx)
                 elif op in ("compare_exchange_strong", "compare_exchange_weak"):
                     ok = (cur[idx], val) in (("E", "C"), ("C", "E"))
                     evs.append("ECasW %d %s" % (idx, "true" if ok else "false"))
                     cur[idx] = val
+                    cas_pending.discard(idx)
                 else:
                     raise Vocabulary("unexpected waiter operation on a word: " + tok)
                 continue
@@ -475,18 +492,18 @@ def plan(ck):
     parts = ["/d%s/l%d" % (d, l) for d in DEADLINES for l in range(3)]
     if ck.tier == "quick":
         return with_yield_passes([
-            ("n=1 all forms, exhaustive DFS (ticker scenarios only for wf/wu with later-kind 0)",
-             [["--mode", "dfs", "--only", "/n1" + p, "--param", "light=1"] for p in parts], "n1"),
-            ("n=2 all forms, DFS with preemption bound 2",
-             [["--mode", "dfs", "--only", "/n2" + p, "--pb", "2", "--max", "100000"] for p in parts], "n2"),
+            ("n=1 all forms, one injected spurious weak-CAS failure per execution, exhaustive DFS (ticker scenarios only for wf/wu with later-kind 0)",
+             [["--mode", "dfs", "--only", "/n1" + p, "--param", "light=1", "--weak", "1"] for p in parts], "n1"),
+            ("n=2 all forms, one injected spurious weak-CAS failure per execution, DFS with preemption bound 2",
+             [["--mode", "dfs", "--only", "/n2" + p, "--pb", "2", "--max", "100000", "--weak", "1"] for p in parts], "n2"),
             ("n=3 all forms, seeded random walks",
              [["--mode", "random", "--only", "/n3/", "--max", "100", "--seed", seed]], "n3"),
         ], ck.tier)
     return with_yield_passes([
-        ("n=1 all forms, exhaustive DFS",
-         [["--mode", "dfs", "--only", "/n1" + p, "--max", "3000000"] for p in parts], "n1"),
-        ("n=2 all forms, DFS with preemption bound 3",
-         [["--mode", "dfs", "--only", "/n2" + p, "--pb", "3", "--max", "3000000"] for p in parts], "n2"),
+        ("n=1 all forms, one injected spurious weak-CAS failure per execution, exhaustive DFS",
+         [["--mode", "dfs", "--only", "/n1" + p, "--max", "3000000", "--weak", "1"] for p in parts], "n1"),
+        ("n=2 all forms, one injected spurious weak-CAS failure per execution, DFS with preemption bound 3",
+         [["--mode", "dfs", "--only", "/n2" + p, "--pb", "3", "--max", "3000000", "--weak", "1"] for p in parts], "n2"),
         ("n=2 selected scenarios (%s), unbounded exhaustive DFS" % ", ".join(N2_FULL),
          [["--mode", "dfs", "--exact", x, "--max", "100000000"] for x in N2_FULL], "n2x"),
         ("n=3 all forms, seeded random walks",
@@ -583,7 +600,7 @@ def main(ck):
     ck.cov["distinct_nontrivial"] = len(nontriv)
     ck.cov["outcomes"] = stats
     ck.cov["rule"] = ("every scheduling decision of the FIBER backend (switch before each wrapped atomic/mutex/condvar operation, next "
-                      "fiber, notified waiter) explored per batch as stated in 'batches'; forms w/wi/wf/wfi/wu/wui (unique: variadic, "
+                      "fiber, notified waiter; in the n=1 and n=2 DFS batches also the position of one spurious compare_exchange_weak failure, --weak 1) explored per batch as stated in 'batches'; forms w/wi/wf/wfi/wu/wui (unique: variadic, "
                       "iterator, WaitFor, WaitUntil), sw/swi (shared), mw (mixed), deadlines -5/15/55/1000005 virtual ns, 3 rotations of "
                       "later consumers (Get&&, DetachInline, Wait+Get const&); every DFS batch is run with the fiber switch offered before each "
                       "wrapped operation and again with it offered after each (--yield-at after), random walks with both; traces "
